@@ -127,6 +127,12 @@ def evaluate(x, M, shift=None, volume=True, deep=True):
             viols.append(('volume-precondition-fails', f'positions={np.array(traj.positions).reshape(-1, 3).tolist()}'))
         except Exception as e:  # noqa: BLE001
             viols.append((f'volume-raise-{type(e).__name__}', str(e)))
+        try:
+            p4 = np.array(traj.positions)
+            if p4.shape != p3.shape or not np.array_equal(p4, p3):
+                viols.append(('positions-changed-by-taking-a-volume', f'{p3.reshape(-1, 3).tolist()} -> {p4.reshape(-1, 3).tolist()}'))
+        except Exception as e:  # noqa: BLE001
+            viols.append((f'positions-after-volume-raise-{type(e).__name__}', str(e)))
     key = (p1.tobytes(), d.tobytes())
     if deep and T >= 2:
         # a queried object that is then extended in place must answer for the whole trajectory
